@@ -1,0 +1,10 @@
+//go:build verif
+// +build verif
+
+package utility
+
+// Verification hook H1: with the "verif" build tag GetTime never dials NTP
+// (the sandbox is offline and ntpOffset(true) would block forever).
+func init() {
+	ntpInitFlag = true
+}
